@@ -468,6 +468,11 @@ def twos_complement(n):
 
 def oracle(op, arg, res, fail):
     """The property itself, on the implementation's own answers."""
+    if 'ok' not in res and op == 'readpacket1':
+        want = ssh1_decode(arg)
+        if want is not None:
+            fail('ssh1_packet_not_read_back', op, arg, res, {'type': want[0], 'data': want[1].hex(), 'rest': want[2].hex()})
+        return
     if 'ok' not in res:
         # encoders may refuse only what does not fit
         if op == 'u32.enc' and arg >= 1 << 32:
